@@ -217,6 +217,11 @@ func run(c *mon.Ctx) {
 	if c.Counter("slow_pages_requests_judged") == 0 {
 		c.Inconclusive("slow-pages-never-judged")
 	}
+	for _, variant := range []string{"spurious", "long-paged", "large-interleaved"} {
+		if c.Counter("scripted_sessions_"+variant) == 0 {
+			c.Inconclusive("scripted-" + variant + "-never-run")
+		}
+	}
 	if c.Counter("reuse_after_done_histories") == 0 {
 		c.Inconclusive("reuse-after-done-never-run")
 	}
@@ -307,6 +312,11 @@ func runWorker(c *mon.Ctx) {
 		reuse = mine(c.Pick(24, 240))
 	}
 	mon.ParallelN(par, len(reuse), func(i int) { runReuseAfterDone(c, base+reuse[i]) })
+	scr := mine(c.Pick(136, 6800))
+	if race {
+		scr = mine(c.Pick(16, 160))
+	}
+	mon.ParallelN(par, len(scr), func(i int) { runScripted(c, base+scr[i]) })
 	fat := mine(c.Pick(72, 2400))
 	if race {
 		fat = mine(c.Pick(12, 120))
@@ -347,6 +357,11 @@ func replay(c *mon.Ctx) {
 	case d.Workload == "slow-pages":
 		perturbLogs(c.Seed)
 		runSlowPages(c, d.Index)
+	case d.Workload == "scripted":
+		perturbLogs(c.Seed)
+		for i := 0; i < 5 && c.ViolationCount() == 0; i++ {
+			runScripted(c, d.Index)
+		}
 	case d.Workload == "reuse-after-done":
 		runReuseAfterDone(c, d.Index)
 	case d.Workload == "fatal-ending":
